@@ -214,6 +214,41 @@ def shared_state_fn(env):
             elif v is None or isinstance(v, (bool, int, float, str, tuple)):
                 watched_globals.append((d, name, False))
     mod_dicts = [vars(m) for m in mods]
+    # class-level state of yatiml's own classes, and containers hidden in function
+    # defaults or closures (mutable default arguments used as scratch space)
+    hidden = []
+    seen_fn = set()
+
+    def scan_function(f):
+        f = getattr(f, '__func__', f)
+        if not isinstance(f, types.FunctionType) or id(f) in seen_fn:
+            return
+        seen_fn.add(id(f))
+        cells = list(f.__defaults__ or ()) + list((f.__kwdefaults__ or {}).values())
+        for c in f.__closure__ or ():
+            try:
+                cells.append(c.cell_contents)
+            except ValueError:
+                pass
+        for v in cells:
+            if isinstance(v, (dict, list, set, collections.deque)):
+                hidden.append(v)
+
+    for m in mods:
+        for name, v in list(vars(m).items()):
+            if isinstance(v, type) and getattr(v, '__module__', '').startswith('yatiml'):
+                d = vars(v)
+                for k, x in list(d.items()):
+                    if k.startswith('__') and k != '__init__' and k != '__call__':
+                        continue
+                    if isinstance(x, (dict, list, set, collections.deque)):
+                        watched_globals.append((d, k, True))
+                    elif x is None or isinstance(x, (bool, int, float, str, tuple)):
+                        watched_globals.append((d, k, False))
+                    else:
+                        scan_function(x)
+            else:
+                scan_function(v)
     cheap = cheap_fingerprint_fn()
     user = []
     for ns in env.ns.values():
@@ -252,6 +287,8 @@ def shared_state_fn(env):
         out.append([len(d[name]) if cont else d[name] for d, name, cont in watched_globals
                     if name in d])
         out.append([len(d) for d in mod_dicts])
+        out.append([list(h.values()) if isinstance(h, dict) else (list(h) if isinstance(h, list) else len(h))
+                    for h in hidden])
         return out
 
     def slow():
@@ -713,6 +750,37 @@ def derive_tapes(prof, K, budget):
     return tapes
 
 
+def stride_tapes(prof, K, stride):
+    """Single pre-emption at every k-th yield point of one thread (thorough tier).
+
+    stride = {'thread': a, 'other': b, 'runs': n, 'offset': o}: thread a is parked at
+    n evenly spaced yield points of its whole run (first at offset o) and thread b
+    runs to completion in between.  Independent of where state is written, so it
+    also reaches windows the write-point profile cannot see (state in closures or
+    C objects).
+    """
+    ty = prof.get('thread_yields') or []
+    if K < 2 or not ty:
+        return []
+    a = stride.get('thread', 0) % K
+    b = stride.get('other', 1) % K
+    if b == a:
+        b = (a + 1) % K
+    total = ty[a]
+    runs = max(1, int(stride.get('runs', 50)))
+    step = max(1, total // runs)
+    off = 1 + stride.get('offset', 0) % step
+    others_a = [x for x in range(K) if x != a]
+    head = [] if a == 0 else [[1, [x for x in range(K) if x != 0].index(a)]]
+    out = []
+    n = off
+    while n < total and len(out) < runs:
+        out.append({'entries': head + [[n, others_a.index(b)], [HUGE, 0]], 'tail': None,
+                    'why': 'stride: park t{} at its yield point {} of {}; t{} runs'.format(a, n, total, b)})
+        n += step
+    return out
+
+
 # ------------------------------------------------------------ engine
 
 class World(Engine):
@@ -763,6 +831,8 @@ class World(Engine):
 
     def _execute(self, plan, stats):
         sweep = int((plan.get('knobs') or {}).get('sweep') or 0)
+        if (plan.get('knobs') or {}).get('stride') and sweep <= 0:
+            sweep = 1
         if sweep <= 0 or len(plan['threads']) < 2:
             return self.execute_one(plan, stats)
         base = dict(plan, tape={'entries': [], 'tail': None})
@@ -779,9 +849,12 @@ class World(Engine):
         stats.count('sweep_write_points', len(prof.get('writes', ())))
         for w in prof.get('writes', ()):
             stats.seen('write_locations', w['loc'])
+        stride = (plan.get('knobs') or {}).get('stride')
+        if stride:
+            tapes = tapes + stride_tapes(prof, len(plan['threads']), stride)
         for tape in tapes:
-            p2 = dict(plan, tape=tape, knobs=dict(plan.get('knobs') or {}, sweep=0))
-            stats.count('sweep_runs')
+            p2 = dict(plan, tape=tape, knobs=dict(plan.get('knobs') or {}, sweep=0, stride=None))
+            stats.count('stride_runs' if tape.get('why', '').startswith('stride') else 'sweep_runs')
             vs = self.execute_one(p2, stats)
             if vs:
                 for v in vs:
@@ -884,6 +957,7 @@ class World(Engine):
                                    'switches': rs['switches'], 'switch_log': rs['switch_log'],
                                    'switch_digest': rs['switch_digest']}})
         stats.count('ops_compared', n_cmp)
+        stats.count('simulated_runs')
         stats.count('yield_points', rs['steps'])
         stats.count('switches', rs['switches'])
         stats.count('yields:callback_seam', rs['cb_yields'])
@@ -979,9 +1053,12 @@ class World(Engine):
         opsk = {k[4:]: v for k, v in c.items() if k.startswith('ops:')}
         status = {k[10:]: v for k, v in c.items() if k.startswith('op_status:')}
         cov = {
-            'evaluations': c.get('evaluations', 0),
+            'evaluations': c.get('simulated_runs', 0),
+            'plans_generated': c.get('evaluations', 0),
             'distinct_nontrivial': len(stats.distinct.get('nontrivial', ())),
-            'rule': ('A case is a plan: 1-3 class-model specs (class names drawn from a pool of six, so '
+            'rule': ('evaluations = simulated runs (a generated plan is run once under its own tape and, when '
+                     'its sweep/stride knobs say so, again under every schedule derived from its profiling run). '
+                     'A case is a plan: 1-3 class-model specs (class names drawn from a pool of six, so '
                      'different specs define different same-named classes), shared load/dump functions created '
                      'at setup, K in 1..4 client threads with operation lists (load from several source kinds, '
                      'dumps/dump/dumps_json/dump_json, function creation, plain-PyYAML probes, gc), a schedule '
@@ -1012,7 +1089,8 @@ class World(Engine):
                                    'profiles_too_long': c.get('sweep_profiles_too_long', 0),
                                    'write_points_found': c.get('sweep_write_points', 0),
                                    'distinct_write_locations': len(stats.distinct.get('write_locations', ())),
-                                   'derived_schedule_runs': c.get('sweep_runs', 0)},
+                                   'derived_schedule_runs': c.get('sweep_runs', 0),
+                                   'stride_single_preemption_runs': c.get('stride_runs', 0)},
             'recursion_errors_not_compared': c.get('recursion_error_not_compared', 0),
             'simulated_time': ('not applicable: yatiml reads no clock and has no timers; the unit of progress '
                                'is the yield point (a traced source line / bytecode, a seam call)'),
